@@ -17,6 +17,11 @@ type Effect struct {
 	Fn      *ssa.Function
 	Call    ssa.CallInstruction
 	Key     *Expr // key expression for store effects
+	// Generic: the section depends on a parameter of Fn (a helper handed the prefix or the key): the
+	// effect is re-created, with the section resolved, at every call site of Fn (Via = Fn there).
+	Generic bool
+	SecExpr *Expr         // expression that determines the section (key, or the prefix of a prefix store)
+	Via     *ssa.Function // for an effect re-created at a call site: the helper that performs it
 }
 
 var bankMutators = map[string]bool{
@@ -176,19 +181,30 @@ func (w *World) EffectsOf(fn *ssa.Function) []Effect {
 				if kind != "" {
 					var key *Expr
 					sec := "?"
+					var secExpr *Expr
 					if len(cc.Args) > 0 {
 						key = w.ExprOf(cc.Args[0])
 						sec = w.SectionOfKey(key)
+						secExpr = key
 					}
 					// a prefix store contributes its own prefix
-					if ps := w.prefixOfStore(cc); ps != "" {
+					if ps, pe := w.prefixOfStore(cc); ps != "" {
 						sec = ps
+						secExpr = pe
 					}
-					add(Effect{Kind: kind, Method: name, Section: sec, Site: in, Call: call, Key: key})
+					e := Effect{Kind: kind, Method: name, Section: sec, Site: in, Call: call, Key: key}
+					if sec == "?" && secExpr != nil && paramDeps(fn, secExpr) {
+						e.Generic, e.SecExpr = true, secExpr
+					}
+					add(e)
 				}
 			case pkg == pkgSDKTypes && (name == "KVStorePrefixIterator" || name == "KVStoreReversePrefixIterator" || name == "KVStorePrefixIteratorPaginated" || name == "KVStoreReversePrefixIteratorPaginated"):
 				key := w.ExprOf(cc.Args[1])
-				add(Effect{Kind: "StoreIter", Method: name, Section: w.SectionOfKey(key), Site: in, Call: call, Key: key})
+				e := Effect{Kind: "StoreIter", Method: name, Section: w.SectionOfKey(key), Site: in, Call: call, Key: key}
+				if e.Section == "?" && paramDeps(fn, key) {
+					e.Generic, e.SecExpr = true, key
+				}
+				add(e)
 			case bankMutators[name] && firstParamIsCtx(cc) && (cc.IsInvoke() || pkg == pkgBankKeeper):
 				kind := "Bank"
 				if name == "MintCoins" {
@@ -217,6 +233,48 @@ func (w *World) EffectsOf(fn *ssa.Function) []Effect {
 	if w.effCache == nil {
 		w.effCache = map[*ssa.Function][]Effect{}
 	}
+	// store effects of helpers whose section depends on a parameter, resolved at this function's call sites
+	w.effCache[fn] = out // recursion guard: a cycle sees the direct effects only
+	for _, b := range fn.Blocks {
+		for _, in := range b.Instrs {
+			call, ok := in.(ssa.CallInstruction)
+			if !ok {
+				continue
+			}
+			if _, isGo := in.(*ssa.Go); isGo {
+				continue
+			}
+			cs := w.CalleesOf(call)
+			if len(cs) != 1 || cs[0] == fn || len(cs[0].Blocks) == 0 {
+				continue
+			}
+			h := cs[0]
+			var generic []Effect
+			for _, e := range w.EffectsOf(h) {
+				if e.Generic {
+					generic = append(generic, e)
+				}
+			}
+			if len(generic) == 0 {
+				continue
+			}
+			en := w.callEnv(h, call, nil)
+			for _, e := range generic {
+				se := Subst(e.SecExpr, en.params)
+				d := Effect{Kind: e.Kind, Method: e.Method, Site: in, Fn: fn, Call: call, Via: h, Section: w.SectionOfKey(se)}
+				if e.Via != nil {
+					d.Via = e.Via
+				}
+				if e.Key != nil {
+					d.Key = Subst(e.Key, en.params)
+				}
+				if d.Section == "?" && paramDeps(fn, se) {
+					d.Generic, d.SecExpr = true, se
+				}
+				out = append(out, d)
+			}
+		}
+	}
 	w.effCache[fn] = out
 	return out
 }
@@ -227,7 +285,7 @@ func isFloat(t types.Type) bool {
 }
 
 // prefixOfStore returns the section when the receiver store is prefix.NewStore(_, P).
-func (w *World) prefixOfStore(cc *ssa.CallCommon) string {
+func (w *World) prefixOfStore(cc *ssa.CallCommon) (string, *Expr) {
 	var recv ssa.Value
 	if cc.IsInvoke() {
 		recv = cc.Value
@@ -235,21 +293,22 @@ func (w *World) prefixOfStore(cc *ssa.CallCommon) string {
 		recv = cc.Args[0]
 	}
 	if recv == nil {
-		return ""
+		return "", nil
 	}
 	return w.prefixOfStoreValue(recv, 0)
 }
 
-func (w *World) prefixOfStoreValue(v ssa.Value, depth int) string {
+func (w *World) prefixOfStoreValue(v ssa.Value, depth int) (string, *Expr) {
 	if depth > 6 {
-		return ""
+		return "", nil
 	}
 	v = stripConv(v)
 	switch x := v.(type) {
 	case *ssa.Call:
 		cc := x.Common()
 		if sc := cc.StaticCallee(); sc != nil && sc.Name() == "NewStore" && calleePkgPath(cc) == pkgStorePref && len(cc.Args) == 2 {
-			return w.SectionOfKey(w.ExprOf(cc.Args[1]))
+			pe := w.ExprOf(cc.Args[1])
+			return w.SectionOfKey(pe), pe
 		}
 	case *ssa.UnOp:
 		if x.Op == token.MUL {
@@ -262,7 +321,7 @@ func (w *World) prefixOfStoreValue(v ssa.Value, depth int) string {
 			}
 		}
 	}
-	return ""
+	return "", nil
 }
 
 // SectionOfKey returns the package-level prefix variable that starts the key, as
